@@ -28,7 +28,7 @@ import os
 import numpy as np
 
 from sa.core import AnalysisError, Report
-from sa.ival import Fmt, Domain, ErrDomain, evaluate, Unsupported, LIBM_SLACK
+from sa.ival import Fmt, Domain, ErrDomain, evaluate, Unsupported, LIBM_SLACK, GuardedEvaluator, _Ctx
 from sa.boxes import refine, Budget
 from ir.frontend import load_package, expand
 from ir.normal import Importer, sym, subst, T, Unmodelled
@@ -209,6 +209,7 @@ def make_judge(name, line, tre, tim, var, fmt, dom, delta):
 
 ERR_BOUND_U = 64.0   # forward error bound per component proved on boxes, in units of u = 2**-p
 POINT_ULP = 16.0     # the property's hard bound, used at single points where the forward bound is not provable
+PLANE_BOUND_U = 256.0  # forward error bound proved over two-dimensional boxes (wider boxes, undecided region tests: looser)
 
 
 def make_err_judge(name, line, tre, tim, var, fmt, region, counters):
@@ -380,6 +381,122 @@ def _analyse(root, ctype, name, line, tier):
     return res
 
 
+# R1.3: two-dimensional forward error analysis.  zone: neighbourhood of the branch points / poles, decided on the lines only
+PLANE = {
+    "absolute": None, "sqrt": None, "square": "overflow",
+    "atanh": "x~1", "atan": "y~1", "asin": "x~1", "acos": "x~1", "acosh": "x~1", "asinh": "y~1",
+}
+PLANE_QUICK = {"absolute", "sqrt", "square", "atanh", "atan"}
+
+
+def _analyse_plane(root, ctype, name, tier):
+    fa = load_package(root)
+    ftype = {"complex64": "float32", "complex128": "float64"}[ctype]
+    fmt = Fmt(ftype)
+    edom = ErrDomain(fmt)
+    pdom = Domain(fmt, slack=0)
+    res = dict(refuted=[], ok=None, error=None)
+    zone = PLANE[name]
+    f = ORACLE[name]
+    L = LD(fmt.largest)
+    counters = dict(points=0)
+    try:
+        ex = expand(fa, name, (f"z:{ctype}",))
+        imp = Importer(fa.expr.Expr, {"z": ("PAIR", sym("x"), sym("y"))})
+        t = imp.imp(ex.body)
+        tre, tim = (t[1], t[2]) if isinstance(t, tuple) and len(t) == 3 and t[0] == "PAIR" else (t, None)
+        comps = [c for c in (tre, tim) if c is not None]
+
+        def judge(l, h):
+            xl, xh = fmt.from_ord(l[:, 0]), fmt.from_ord(h[:, 0])
+            yl, yh = fmt.from_ord(l[:, 1]), fmt.from_ord(h[:, 1])
+            shp = xl.shape
+            env = {"x": edom.box(xl, xh), "y": edom.box(yl, yh)}
+            c0 = _Ctx(GuardedEvaluator(comps, env, edom), None, {})
+            ok = np.ones(shp, bool)
+            tots = []
+            for c in comps:
+                R = c0.value(c)
+                rlo = np.broadcast_to(R.lo, shp).astype(LD)
+                rhi = np.broadcast_to(R.hi, shp).astype(LD)
+                rel = np.broadcast_to(0.0 if R.rel is None else R.rel, shp)
+                abe = np.broadcast_to(LD(0.0) if R.abe is None else R.abe, shp)
+                rn = np.broadcast_to(R.nan, shp)
+                with np.errstate(all="ignore"):
+                    rmin = np.where((rlo <= 0) & (rhi >= 0), LD(0.0), np.minimum(np.abs(rlo), np.abs(rhi)))
+                    tot = rel + np.where(abe <= 4 * edom.eta, 0.0, (abe / rmin).astype(np.float64))
+                    tot = np.where(np.isnan(tot), 1e30, tot)
+                    fin = np.isfinite(rlo) & np.isfinite(rhi)
+                tots.append(tot)
+                ok &= ((tot <= PLANE_BOUND_U * edom.u) & ~rn) | (~fin & ~rn)
+            with np.errstate(all="ignore"):
+                ax0, ax1 = np.minimum(np.abs(xl), np.abs(xh)).astype(LD), np.maximum(np.abs(xl), np.abs(xh)).astype(LD)
+                ay0, ay1 = np.minimum(np.abs(yl), np.abs(yh)).astype(LD), np.maximum(np.abs(yl), np.abs(yh)).astype(LD)
+                if zone == "x~1":
+                    excl = (ax0 >= 0.5) & (ax1 <= 2) & (ay1 <= 0.5)
+                elif zone == "y~1":
+                    excl = (ay0 >= 0.5) & (ay1 <= 2) & (ax1 <= 0.5)
+                elif zone == "overflow":
+                    excl = (ax0 + ay0) >= L / 2
+                else:
+                    excl = np.zeros(shp, bool)
+            point = (l == h).all(axis=1)
+            proved = ok | excl
+            refuted = np.zeros(shp, bool)
+            errs = np.zeros(shp)
+            cand = point & ~proved
+            if cand.any():
+                memo2 = {}
+                env2 = {"x": pdom.box(xl, xh), "y": pdom.box(yl, yh)}
+                z = np.empty(shp, dtype=CLD)
+                z.real = xl.astype(LD)
+                z.imag = yl.astype(LD)
+                with np.errstate(all="ignore"):
+                    ref = f(z)
+                worst = np.zeros(shp)
+                for ci, c in enumerate(comps):
+                    pv = np.broadcast_to(evaluate(c, env2, pdom, memo2).lo, shp).astype(LD)
+                    tv = (np.real(ref) if ci == 0 else np.imag(ref)) if np.iscomplexobj(ref) else ref
+                    with np.errstate(all="ignore"):
+                        ulp = np.maximum(np.abs(tv), LD(fmt.smallest)) * LD(2.0 ** (1 - fmt.p))
+                        e = np.abs(pv - tv) / ulp
+                        e = np.where(np.isnan(tv), 0.0, np.where(np.isnan(e), np.inf, e))
+                        e = np.where(np.isinf(pv) & np.isinf(tv) & (pv == tv), 0.0, e)
+                        e = np.where((np.abs(tv) >= L) & np.isinf(pv), 0.0, e)
+                    worst = np.maximum(worst, e.astype(np.float64))
+                errs = worst
+                okp = cand & (worst <= POINT_ULP)
+                proved = proved | okp
+                refuted = cand & ~okp
+                counters["points"] += int(cand.sum())
+
+            def describe(i):
+                b = ", ".join(f"{float(t_[i]) / edom.u:.0f}u" for t_ in tots)
+                base = f"x in [{float(xl[i])!r}, {float(xh[i])!r}], y in [{float(yl[i])!r}, {float(yh[i])!r}]"
+                return base + (f": error {errs[i]:.1f} ULP against the long-double reference; " if point[i] else ": ") + f"forward error bounds (re, im) {b}"
+
+            return proved, refuted, describe
+
+        oi = fmt.ord_inf
+        sm = int(fmt.to_ord(fmt.smallest))
+        half, two = int(fmt.to_ord(fmt.ft(0.5))), int(fmt.to_ord(fmt.ft(2.0)))
+        rng = [(-oi + 1, -two - 1), (-two, -half), (-half + 1, -sm), (sm, half - 1), (half, two), (two + 1, oi - 1)]
+        lo0 = np.array([[a[0], b[0]] for a in rng for b in rng])
+        hi0 = np.array([[a[1], b[1]] for a in rng for b in rng])
+        try:
+            out = refine(lo0, hi0, judge, max_boxes=3_000_000, probe_dims=9)
+        except Budget as e:
+            out = e.outcome
+            if not out.refuted:
+                res["error"] = f"{name}[{ctype}] plane: forward error bound not provable within the box budget ({e})"
+                return res
+        res["refuted"] = [(str(lo_), info) for lo_, hi_, info in out.refuted[:3]]
+        res["ok"] = f"{out.proved} boxes proved ({counters['points']} single points by exact evaluation), {out.levels} refinement levels" + (f"; outside the zone {zone}" if zone else "")
+    except (Unsupported, Unmodelled) as e:
+        res["error"] = f"{name}[{ctype}] plane: {e}"
+    return res
+
+
 def _known_keys():
     from sa.core import load_known
     return {(k["rule"], k["key"]) for k in load_known() if k.get("property") == "C01" and k.get("status") == "known"}
@@ -391,6 +508,7 @@ def run(repo, tier):
     r = Report("C01", tier, repo, level="other", design_ref="DESIGN.md §3/C01")
     r.rule("R1.1", "on the real axis, the imaginary axis and both diagonals, for every float of the component type: no spurious NaN/inf, correct sign and branch-cut side, relative error per component below the coarse bound", floor=100)
     r.rule("R1.2", f"forward error analysis on the same lines: the rounding-error bound of each component is at most {ERR_BOUND_U:.0f}u on every box (u = 2**-p) or, at single points where it is not provable, the exactly evaluated result is within {POINT_ULP:.0f} ULP of the reference (inputs inside the regions reported by R1.1 excepted)", floor=100)
+    r.rule("R1.3", f"forward error analysis over the whole plane: for all normal finite (x, y) - outside the stated neighbourhood of the branch points / the overflow band - the rounding-error bound of each component is at most {PLANE_BOUND_U:.0f}u, or the exactly evaluated point is within {POINT_ULP:.0f} ULP of the reference", floor=8)
     if np.finfo(LD).maxexp <= 1024:
         raise AnalysisError("numpy.longdouble is not an extended format on this machine; the reference ranges for complex128 would overflow")
     load_package(repo.root)
@@ -400,11 +518,15 @@ def run(repo, tier):
     tasks = [(repo.root, ctype, name, line, tier) for ctype in ("complex64", "complex128") for name in DECIDED for line in sorted(DECIDED[name])
              if tier == "thorough" or line not in RAYS or line in QUICK_RAYS]
     jobs = int(os.environ.get("VERIF_JOBS", "0") or 0) or min(len(tasks), os.cpu_count() or 1)
+    ptasks = [(repo.root, ctype, name, tier) for ctype in ("complex64", "complex128") for name in PLANE if tier == "thorough" or name in PLANE_QUICK]
     if jobs > 1:
         with mp.get_context("fork").Pool(jobs) as pool:
+            presults_async = pool.starmap_async(_analyse_plane, ptasks, chunksize=1)
             results = pool.starmap(_analyse, tasks, chunksize=1)
+            presults = presults_async.get()
     else:
         results = [_analyse(*t) for t in tasks]
+        presults = [_analyse_plane(*t) for t in ptasks]
     total = dict(boxes=0, proved=0, points=0)
     regional = {}
     pending_errors = []
@@ -433,6 +555,17 @@ def run(repo, tier):
                 r.ob("R1.2", key + f" forward error at {lo_}", False, info, where)
         elif res.get("err_ok"):
             r.ob("R1.2", key + " forward error", True, res["err_ok"], where)
+    for (root, ctype, name, _), res in zip(ptasks, presults):
+        where = f"functional_algorithms/{REL}::{name}"
+        key = f"{name}[{ctype}] all normal finite inputs"
+        if res["error"] and not res["refuted"]:
+            pending_errors.append(res["error"])
+            continue
+        if res["refuted"]:
+            for lo_, info in res["refuted"]:
+                r.ob("R1.3", key + f" at {lo_}", False, info, where)
+        else:
+            r.ob("R1.3", key, True, res["ok"], where)
     # failures inside a named input region are one finding per (function, type, region), whatever lines show them
     for (name, ctype, rg), ent in sorted(regional.items()):
         r.ob("R1.1", f"{name}[{ctype}] {rg}", False,
